@@ -175,7 +175,7 @@ def run(ctx):
     ctx.cov["rule"] = ("random Lark grammars in the supported subset (string and regex terminals, case-insensitive literals incl. ß and s, multi-byte characters, optional/star/plus/alternation in rules, %ignore) x candidate strings up to length 4 over the characters of the terminals: "
                        "char_cfg(s) > 0 and byte_cfg(utf8(s)) > 0 vs the substitution semantics evaluated with Python re per terminal and a recogniser for the rule expressions; truncated byte strings must be rejected; N and V of the result must be disjoint; both recursion directions; "
                        "non-trivial = grammar accepting at least one candidate")
-    ok, out = ctx.build(["proofs/UnionProofs.vo", "proofs/ConvertProofs.vo", "proofs/RegexProofs.vo"])
+    ok, out = ctx.build(["proofs/UnionProofs.vo", "proofs/ConvertProofs.vo", "proofs/RegexProofs.vo", "proofs/SubstProofs.vo"])
     if ok:
         ctx.prove("props/C19.v")
     else:
